@@ -286,6 +286,10 @@ fn run_batch(cfg: &Value) -> Value {
         match r {
             Ok(res) => {
                 let mut o = json!({"result": err_json(&res), "events":[ev0, ev1]});
+                #[cfg(feature = "model")]
+                {
+                    o["log_after"] = json!(t.log_id());
+                }
                 if let Ok(p) = res {
                     let bytes = p.to_bytes();
                     o["proof"] = env::layout(&bytes);
